@@ -2,6 +2,7 @@
 import json
 
 from runner import Judge
+import stonegen
 from stonegen import Generated, render_schema
 from wire import Binder, Unprojectable, doc_to_json, json_strict_eq, norm_abs
 
@@ -157,6 +158,16 @@ class WireJudge(Judge):
 
     # -------------------------------------------------------------- C06
     def judge_decode(self, vec):
+        self.judge_decode_once(vec)
+        if stonegen.has_not_ok_str(vec['doc']):
+            # the other way of failing a pattern: a full match followed by a line feed
+            stonegen.NOT_OK_TAIL = '\n'
+            try:
+                self.judge_decode_once(vec)
+            finally:
+                stonegen.NOT_OK_TAIL = 'Z'
+
+    def judge_decode_once(self, vec):
         ss, bv = self.ss, self.bv
         root = vec['root']
         val = self.validator_for(root)
